@@ -1,7 +1,7 @@
 """C05 - delegation check uses exactly the named role's keys and threshold."""
 import random
 
-from ..engines import delegation, inplace, noise
+from ..engines import delegation, inplace, noise, threads
 from ..monitors import boundary
 from ..refs import models
 
@@ -22,6 +22,8 @@ def plan(tier, seed):
     specs = [{"kind": "deleg", "count": n // shards} for _ in range(shards)]
     for _ in range(2 if tier == "quick" else 6):
         specs.append({"kind": "inplace", "count": 60 if tier == "quick" else 600})
+    for T in ([4, 8] if tier == "quick" else [2, 4, 8, 16]):
+        specs.append({"kind": "threads", "threads": T, "count": 250 if tier == "quick" else 2000})
     return specs
 
 
@@ -61,7 +63,23 @@ def run_inplace(spec, rec, lib):
     rec.sample({"inplace_history": "one trusted dict object mutated in place between verify_delegation calls; model judges its current content"})
 
 
+def run_threads(spec, rec, lib):
+    """the keys and threshold that count are those of the role named in THIS call, also while other roles are being
+    verified concurrently"""
+    rng = random.Random(spec["seed"])
+    for case, model, out in threads.run_delegation(lib, rng, spec["count"], spec["threads"], rec, spec["seed"]):
+        rec.case("thr|%d|%s" % (spec["threads"], case["stratum"]))
+        if out.accepted and model.v == models.REJECT:
+            rec.violation("unsound-accept/verify_delegation/under-threads",
+                          "accepted under %d concurrent threads although: %s" % (spec["threads"], model.why), case)
+        if model.v == models.ACCEPT and not out.accepted:
+            rec.violation(boundary.mechanism("false-reject", "verify_delegation[threads]", "accept", out),
+                          "properly signed for the role, rejected under %d concurrent threads" % spec["threads"], case)
+
+
 def run_shard(spec, rec, lib):
+    if spec["kind"] == "threads":
+        return run_threads(spec, rec, lib)
     if spec["kind"] == "inplace":
         return run_inplace(spec, rec, lib)
     rng = random.Random(spec["seed"])
